@@ -84,6 +84,35 @@ func replayCmd(path string) int {
 		fmt.Println("violation does not reproduce")
 		return 0
 	}
+	if g, ok := rec["generic_replay"].(map[string]interface{}); ok {
+		// the test generated from the solver's model: run it again on the current tree
+		tmp, err := os.MkdirTemp("", "govc-greplay-")
+		if err != nil {
+			fmt.Println(err)
+			return 2
+		}
+		defer os.RemoveAll(tmp)
+		src := filepath.Join(tmp, "zz_verif_generic_replay_test.go")
+		os.WriteFile(src, []byte(fmt.Sprint(g["source"])), 0o644)
+		dir := fmt.Sprint(g["pkg_dir"])
+		ov := map[string]map[string]string{"Replace": {filepath.Join(dir, "zz_verif_generic_replay_test.go"): src}}
+		b, _ := json.Marshal(ov)
+		ovf := filepath.Join(tmp, "ov.json")
+		os.WriteFile(ovf, b, 0o644)
+		cmd := exec.Command("go", "test", "-overlay", ovf, "-vet=off", "-count=1", "-v", "-timeout", "60s", "-run", "^TestVerifGenericReplay$", ".")
+		cmd.Dir = dir
+		cmd.Env = append(os.Environ(), "GOFLAGS=-mod=mod", "GOPROXY=off", "GOSUMDB=off", "GOTOOLCHAIN=local")
+		out, _ := cmd.CombinedOutput()
+		fmt.Println(string(out))
+		for _, l := range strings.Split(string(out), "\n") {
+			if strings.HasPrefix(l, "REPRODUCED: ") {
+				fmt.Println("violation reproduced on the real code")
+				return 1
+			}
+		}
+		fmt.Println("violation does not reproduce")
+		return 0
+	}
 	fmt.Printf("no executable replay (no failing input found); solver output:\n%v\n", rec["solver_output"])
 	return 1
 }
